@@ -561,6 +561,13 @@ def main(chk):
     rule_builders(chk, cls)
     rule_wrap(chk, cls)
     rule_cell_size(chk, cls)
+    # the previous round's ghosts are removed with ParticleArray.remove_tagged_particles, which must look at every particle (the array
+    # need not be aligned when _remove_ghosts runs): rule shared with C06
+    import importlib.util
+    spec = importlib.util.spec_from_file_location('c06mod', os.path.join(os.path.dirname(os.path.abspath(__file__)), 'c06.py'))
+    c06 = importlib.util.module_from_spec(spec)
+    spec.loader.exec_module(c06)
+    c06.rule_tag_scans(chk, M.find_class(M.cy(c06.PA), 'ParticleArray'))
     chk.unit('functions', ['CPUDomainManager.update', '_create_ghosts_periodic', '_create_ghosts_mirror', '_box_wrap_periodic',
                            '_compute_cell_size_for_binning', 'DomainManagerBase._remove_ghosts', 'DomainManagerBase.__init__'])
     chk.assume('ParticleArray.extract_particles/append_parray copy whole particles (C06); carray.reset() empties a list')
